@@ -193,6 +193,88 @@ def run_io(pid, tier, t0):
     return report_replay(pid, [("MC_IO", res)], tier, t0, assumptions=SHAPE_ASSUME + [
         "the specification's writer model is compared byte for byte with the bytes the real code writes; the model itself is shown self-consistent / round-tripping by TLC in every state"])
 
+# ------------------------------------------------------------------ C15: fault enumeration
+def _frame(pnames, nsub, anames, tag):
+    return {"p": [{"n": vlib.codes(n), "v": [[tag, i + 1, c, 64] for c in (1, 2, 3, 4)]} for i, n in enumerate(pnames)],
+            "a": [[{"n": vlib.codes(n), "v": [tag, i + 1, 16 + s, 65]} for i, n in enumerate(anames)] for s in range(1, nsub + 1)]}
+def _rate(group, hz_bytes):
+    return {"op": "SetParam", "g": vlib.codes(group), "p": {"n": vlib.codes("RATE"), "d": [], "l": 1, "sets": [{"t": 4, "v": [hz_bytes], "dim": [], "scalar": 1}]}}
+def _userparam(g, n, t, vals, dim=(), desc="", lock=0):
+    return {"op": "SetParam", "g": vlib.codes(g), "p": {"n": vlib.codes(n), "d": vlib.codes(desc), "l": lock, "sets": [{"t": t, "v": vals, "dim": list(dim), "scalar": 0}]}}
+F100, F200, F1000 = [0, 0, 200, 66], [0, 0, 72, 67], [0, 0, 122, 68]
+def build_ops(npts, nch, nsub, nframes, extra=()):
+    ops = [{"op": "New"}]
+    pn = ["p%d" % i for i in range(1, npts + 1)]; an = ["a%d" % i for i in range(1, nch + 1)]
+    if npts: ops.append(_rate("POINT", F100))
+    if nch: ops.append(_rate("ANALOG", F100 if nsub == 1 else F200 if nsub == 2 else F1000))
+    if npts and not nch: pass
+    if nch and not npts: ops.append(_rate("POINT", F100))
+    ops += [{"op": "DeclPoint", "n": vlib.codes(n)} for n in pn] + [{"op": "DeclAnalog", "n": vlib.codes(n)} for n in an]
+    ops += list(extra)
+    ops += [{"op": "AddFrame", "idx": -1, "frame": _frame(pn, nsub if nch else 0, an, (f % 200) + 1)} for f in range(nframes)]
+    return ops
+
+def run_faults(pid, tier, t0):
+    ez = report_replay.ez = vlib.build("plain")
+    rnd = random.Random(vlib.seed())
+    big = _userparam("BIG", "TEXT", -1, [vlib.codes("x" * 60)] * 12)          # pushes the parameter section into a second block
+    objects = [("empty", build_ops(0, 0, 0, 0), "all"),
+               ("p1f1", build_ops(1, 0, 0, 1), None),
+               ("p3a3x10", build_ops(3, 3, 10, 10), None),
+               ("twoblocks", build_ops(2, 1, 2, 3, [big]), None),
+               ("frames40", build_ops(2, 2, 1, 40), None)]
+    kinds = ["none", "missing_dir", "is_dir", "dev_full", "readonly"]
+    ops = []
+    for name, build, ks in objects:
+        ops.append({"op": "Reset"}); ops += [dict(o, post=0) for o in build]
+        if ks is None:
+            if tier == "quick":
+                ks = [0, 1, 2, 15, 16, 17, 18, 510, 511, 512, 513, 514, 515, 516, 1023, 1024, 1025, 1535, 1536, 1537, -3, -2, -1] + [rnd.randrange(0, 1024) for _ in range(40)] + [-rnd.randrange(1, 3000) for _ in range(24)]
+            else:
+                ks = "all"
+        ops.append({"op": "FaultSweep", "label": name, "kinds": kinds, "ks": ks})
+    evs, raw = vlib.run_ops(ez, ops, timeout=3000)
+    faults = [e for e in evs if e.get("e") == "SaveFault"]
+    work = vlib.scratch("c15")
+    tpath = os.path.join(work, "faults.ndjson")
+    open(tpath, "w").write("\n".join(json.dumps(e) for e in faults) + "\n")
+    # design level: the fault model itself
+    rc, out = vlib.run_tlc("EzFault.tla", "EzFault.cfg", timeout=300)
+    msum = vlib.tlc_summary(out)
+    if vlib.tlc_errors(out) or msum is None: raise Infra("EzFault model check failed: %s" % out[-1500:])
+    accepted, at, summ, tout = vlib.validate_trace("EzFaultTrace.tla", "EzFaultTrace.cfg", tpath)
+    nviol = 0
+    if not accepted:
+        accepted2, at2, _, _ = vlib.validate_trace("EzFaultTrace.tla", "EzFaultTrace.cfg", tpath)      # a rejection is reported only if it repeats
+        if not accepted2 and at2 == at:
+            # report every rejected event, not only the first: validate the remaining events one at a time is costly, so locate by the spec's rule
+            bad = [e for e in faults if not ((e["out"] == "ok" and e["disk_len"] == e["ref_len"] and e["prefix_ok"] == 1 and (e["kind"] == "none" or (e["kind"] == "fsize" and e["k"] >= e["ref_len"])))
+                                             or (e["out"] == "ios_failure" and not (e["kind"] == "none" or (e["kind"] == "fsize" and e["k"] >= e["ref_len"]))))]
+            first = faults[at - 1] if at and at - 1 < len(faults) else (bad[0] if bad else None)
+            keyset = {}
+            for e in ([first] if first else []) + bad:
+                keyset.setdefault("%s:%s" % (e["kind"], e["out"]), e)
+            for key, e in list(keyset.items())[:8]:
+                p = vlib.save_replay(pid, key, {"property": pid, "kind": "fault", "event": e, "build_ops": dict((n, b) for n, b, _ in objects)[e["obj"]]})
+                log("VIOLATION property=%s replay=%s" % (pid, p))
+                log("  save under fault %s(k=%s) on object '%s' returned '%s' with %s of %s bytes on disk: not a step of EzFault.SaveUnderFault (trace rejected at event %s)" %
+                    (e["kind"], e["k"], e["obj"], e["out"], e["disk_len"], e["ref_len"], at))
+                nviol += 1
+    lossy = [e for e in faults if not (e["kind"] == "none" or (e["kind"] == "fsize" and e["k"] >= e["ref_len"]))]
+    distinct = len({(e["obj"], e["kind"], e["k"]) for e in lossy})
+    cov = {"evaluations": len(faults), "distinct_nontrivial": distinct,
+           "rule": "one evaluation = one save of a built object in a forked child under one fault (unopenable path: missing directory / directory / "
+                   "read-only file as uid 65534; /dev/full; RLIMIT_FSIZE=k with SIGXFSZ ignored); non-trivial = the fault loses at least one byte "
+                   "(k < file length or destination fault); distinct by (object, fault kind, k). Every event is validated by TLC against EzFaultTrace.tla",
+           "samples": lossy[:3] + faults[-2:], "objects": [n for n, _, _ in objects],
+           "trace_events_validated": len(faults), "trace_accepted": bool(accepted),
+           "model_states": msum["distinct"], "model_transitions": msum["generated"], "exhaustive": tier != "quick"}
+    cov["known_findings_observed"] = known_findings(pid, ez)
+    vlib.write_evidence(pid, tier, "fault_enumeration", cov, time.time() - t0, nviol,
+                        ["faults are injected through the operating system (rlimit, permissions, /dev/full); a write error that the OS would only report at a later fsync is outside the model"])
+    log("[%s] %s: %d saves under fault (%d lossy, %d distinct), trace %s by TLC, %.0fs" % (pid, tier, len(faults), len(lossy), distinct, "accepted" if accepted else "REJECTED", time.time() - t0))
+    return 1 if nviol else 0
+
 SAN_ENV = {"ASAN_OPTIONS": "detect_leaks=0:alloc_dealloc_mismatch=1:abort_on_error=1:detect_stack_use_after_return=0",
            "UBSAN_OPTIONS": "print_stacktrace=1:halt_on_error=1"}
 def run_memsafe(pid, tier, t0):
@@ -226,6 +308,7 @@ def run_memsafe(pid, tier, t0):
     return rc
 
 CHECKS = {
+    "C15": run_faults,
     "C13": run_memsafe,
     "C01": run_io, "C03": run_io, "C04": run_io, "C14": run_io,
     "C11": run_lookup,
